@@ -396,7 +396,13 @@ fn c19_fleet_seq(case: &Case) {
 
 fn c19_fleet_broadcast(case: &Case) {
     net::reset(draw_net());
-    let nnodes = range(1, 4) as usize;
+    // (rarely: far more nodes than any fan-out batch a fleet might use internally)
+    let many = simkernel::choose(150) == 0;
+    let nnodes = if many { pick(&[65usize, 70, 130]) } else { range(1, 4) as usize };
+    if many {
+        simkernel::count("probe.broadcast_to_many_nodes");
+        net::set_config(simkernel::net::NetConfig { capacity: 65_536, lat_min: 0, lat_max: 10_000, max_segment: 0 });
+    }
     let all_tags = ["a", "b", "c"];
     let mut cfgs = Vec::new();
     let mut logs = Vec::new();
@@ -446,9 +452,10 @@ fn c19_fleet_broadcast(case: &Case) {
     }
     case.sample(json!({"nodes": node_tags, "flaky": flaky.iter().map(|s| format!("{s:?}")).collect::<Vec<_>>(), "broadcast_tags": want_tags, "max_attempts": max_attempts}));
     let out = fleet.broadcast_json("/m/bc", Some(&json!({"x": 1})), &want_tags);
-    let addressed: Vec<String> = (0..nnodes).filter(|n| want_tags.iter().all(|t| node_tags[*n].contains(t))).map(|n| format!("n{n}")).collect();
+    let mut addressed: Vec<String> = (0..nnodes).filter(|n| want_tags.iter().all(|t| node_tags[*n].contains(t))).map(|n| format!("n{n}")).collect();
     let mut got: Vec<String> = out.keys().cloned().collect();
     got.sort();
+    addressed.sort();
     if !case.check(got == addressed, "broadcast-addressing", || format!("broadcast {want_tags:?} returned results for {got:?}, nodes carrying all tags: {addressed:?}")) {
         return;
     }
